@@ -1,7 +1,7 @@
 From Coq Require Import List NArith Bool.
 From V.gen Require Consts.
 From V.C03 Require Import Model Msg Proofs UviProofs LsProofs WebRtc WebRtcProofs Fallback.
-From V.C03 Require Import MsgRef MsgProofs MsgInv Chan Dir SimD SimL SimSys BytesThm.
+From V.C03 Require Import MsgRef MsgProofs MsgInv Chan Dir SimD SimL SimSys BytesThm LazyThm.
 Import ListNotations.
 Open Scope N_scope.
 From V.C03 Require Import Properties.
@@ -93,6 +93,20 @@ Check (C03_bytes_run_correct :
   | None =>
       fst (t_res (s_d s)) <> 0 /\ fst (t_res (s_l s)) <> 0
   end).
+Check (C03_lazy_immediate :
+  forall d pin pout fuel, wfn d ->
+  d_poll (S (S fuel)) (d_init [d] true) pin pout =
+  (mkDialer (DSendProto 0 d false) [] true rd_init (fr MHeader), pin, pout,
+   NLazy 0 d rd_init (fr MHeader ++ fr (MProto d)))).
+Check (C03_lazy_dialer_verdict :
+  forall d ls, starts_slash d = true -> forall junk sched,
+  let m := mrun ls sched (lazy_init d junk) in
+  (forall q, md_ph (sd m) = MDDone (Some q) -> q = d /\ supported ls d = true) /\
+  (md_ph (sd m) = MDDone None -> supported ls d = false)).
+Check (C03_lazy_listener_agreement_refuted :
+  exists d ls junk sched,
+    let m := mrun ls sched (lazy_init d junk) in
+    md_ph (sd m) = MDDone None /\ ml_ph (sl m) = MLDone (Some [47; 98]) /\ d <> [47; 98]).
 Check (C03_webrtc_listener_header_proposal :
   forall ls p b, wf_name p -> webrtc_encode (MProto p) true = Some b ->
   match l_find ls p with
